@@ -70,7 +70,13 @@ def run(replay=None):
     if rc != 0:
         ck.obligation_broken("harness run c18 (exit %d)" % rc, out[-2000:])
         return ck.finish()
-    rs = [r for r in vlib.read_jsonl(obs) if r.get("kind") == "pair"]
+    allrs = vlib.read_jsonl(obs)
+    for r in [r for r in allrs if r.get("kind") == "expand"]:
+        ck.coverage["evaluations"] += 2
+        if r["panic"] or r["first"] != r["want"] or r["second"] != r["want"] or not r["input_unchanged"]:
+            ck.impl_violation("variadic-expansion-not-pure", "ExpandVariadic on %d fixed + %d variadic arguments: first %r, second %r, want %r, caller's arguments unchanged: %s %s" % (
+                r["nfix"], r["nvar"], r["first"], r["second"], r["want"], r["input_unchanged"], r["panic"]), r)
+    rs = [r for r in allrs if r.get("kind") == "pair"]
     if replay:
         rp = json.load(open(replay))
         c = rp.get("case", {})
